@@ -82,7 +82,84 @@ func genCase(rt *rapid.T) Case {
 
 var chk = pbt.Check[Case]{Name: "container-independence", Gen: genCase, Eval: eval}
 
-func init() { pbt.Register(chk) }
+// Sweep: the same block behind pad bytes of format-valid filler (JPEG COM segments, a PNG tEXt chunk, an ISOBMFF free
+// box, spaces inside mdat) must decode to the same metadata as without filler: every structure of the block crosses
+// every reader-buffer boundary at some pad.
+type Sweep struct {
+	Rec       *gen.Record   `json:"rec"`
+	Ctx       exifcheck.Ctx `json:"ctx"`
+	Payload   []byte        `json:"payload"`
+	Container string        `json:"container"`
+	At        int           `json:"at"`
+	Pad       int           `json:"pad"`
+}
+
+var sweepEntries = map[string][]string{"jpeg": {"Decode", "DecodeJPEG"}, "png": {"DecodePng"}, "cr3": {"Decode", "DecodeCR3", "BMFFExif"}, "heif": {"Decode", "DecodeHeif"}} // (the box reader's HEIF item path is not a decode entry point of this property; C11 walks it)
+
+func (s Sweep) build(pad int) []byte {
+	switch s.Container {
+	case "jpeg":
+		return gen.PadJPEG(s.Payload, pad)
+	case "png":
+		return gen.PadPNG(s.Payload, pad)
+	case "cr3":
+		return gen.PadCR3(s.Payload, pad, s.At)
+	default:
+		return gen.PadHEIF(s.Payload, pad, s.At)
+	}
+}
+
+var sweepRef = map[string]string{}
+
+func evalSweep(s Sweep) *pbt.Fail {
+	key := "sweep:" + s.Container
+	for _, entry := range sweepEntries[s.Container] {
+		rk := fmt.Sprint(s.Container, s.At, entry, ev.Hash(s.Payload))
+		ref, ok := sweepRef[rk]
+		if !ok {
+			e, err, pan := exifcheck.Decode(entry, s.build(0))
+			if pan != "" || err != nil {
+				return pbt.Failf(key, "%s via %s without filler: error %v panic %q on a well-formed file", s.Container, entry, err, pan)
+			}
+			if diffs := exifcheck.Compare(e, s.Rec, s.Ctx); len(diffs) > 0 && s.Rec != nil {
+				return pbt.Failf(key, "%s via %s without filler: %s", s.Container, entry, strings.Join(diffs, "; "))
+			}
+			ref = exifcheck.MaskedDigest(e)
+			sweepRef[rk] = ref
+		}
+		e, err, pan := exifcheck.Decode(entry, s.build(s.Pad))
+		if pan != "" {
+			return pbt.Failf(key, "%s via %s with %d bytes of filler (placement %d) panicked: %s", s.Container, entry, s.Pad, s.At, pan)
+		}
+		if err != nil {
+			return pbt.Failf(key, "%s via %s with %d bytes of filler (placement %d) returned error %v; without filler it decodes", s.Container, entry, s.Pad, s.At, err)
+		}
+		if d := exifcheck.MaskedDigest(e); d != ref {
+			return pbt.Failf(key, "%s via %s with %d bytes of filler (placement %d) differs from the same file without filler: %s", s.Container, entry, s.Pad, s.At, exifcheck.FirstDiff(d, ref))
+		}
+	}
+	return nil
+}
+
+var chkSweep = pbt.Check[Sweep]{Name: "filler-independence", Eval: evalSweep, Gen: func(rt *rapid.T) Sweep {
+	f := gen.GenExif(rt, gen.Options{Unbuffered: true, MaxForeign: 4, HeavyWriter: rapid.IntRange(0, 4).Draw(rt, "heavy") == 0})
+	s := Sweep{Rec: f.Rec, Ctx: exifcheck.CtxOf(f), Payload: f.Enc.II, Container: rapid.SampledFrom([]string{"jpeg", "png", "cr3", "heif"}).Draw(rt, "container"), At: rapid.IntRange(0, 2).Draw(rt, "at")}
+	if rapid.Bool().Draw(rt, "mm") {
+		s.Payload = f.Enc.MM
+	}
+	if s.Container == "jpeg" && len(s.Payload) > 65000 {
+		s.Container = "png"
+	}
+	unit := rapid.SampledFrom([]int{4096, 4096, 1024, 2048, 8192, 65536}).Draw(rt, "unit")
+	s.Pad = rapid.IntRange(1, 3).Draw(rt, "k")*unit - rapid.IntRange(0, len(s.Payload)+200).Draw(rt, "back")
+	if s.Pad < 20 {
+		s.Pad = 20
+	}
+	rec.Case(f.NonTrivial(), ev.Hash(s.Payload, []byte(fmt.Sprint(s.Container, s.At, s.Pad))), "sweep:"+s.Container)
+	return s
+}}
+
+func init() { pbt.Register(chk); pbt.Register(chkSweep) }
 
 func TestProp(t *testing.T) {
 	defer rec.MustWrite()
@@ -92,8 +169,43 @@ func TestProp(t *testing.T) {
 		"non-trivial = record non-trivial as in C03; distinct by (payload, JPEG embedding)")
 	rec.Assume("bytes placed before the payload in HEIF files contain no 'I'/'M' (the HEIF path locates Exif by signature scan); JPEG payloads <= 65000 bytes; PNG CRCs valid")
 	rec.Assume("Decode is not a corresponding entry point for PNG (it reports 'metadata not supported' for image/png by design); DecodePng is")
+	rec.Rule("filler independence: a generated block behind pad bytes of format-valid filler (JPEG COM segments, PNG tEXt chunk, ISOBMFF free box inside moov / the Canon box / meta / between meta and mdat, spaces inside mdat) " +
+		"must decode (Decode, the format entry point, and the box reader with the Exif reader as callback) to the same masked digest as without filler: exhaustive over every pad from the minimum to one (quick) or three (thorough) 4 KiB buffers plus 300 for fixed-seed records, random (record, container, placement, pad near a multiple of 1/2/4/8/64 KiB) otherwise")
 	pbt.RegressDir(t, rec)
+	// exhaustive pad sweep for a few records drawn from VERIF_SEED
+	nrec, maxPad := rec.Env.Pick(1, 4), rec.Env.Pick(4096+300, 3*4096+300)
+	idx := 0
+	for ri := 0; ri < nrec; ri++ {
+		f := rapid.Custom(func(rt *rapid.T) *gen.ExifFile {
+			return gen.GenExif(rt, gen.Options{Unbuffered: true, MaxForeign: 3, HeavyWriter: ri == 1})
+		}).Example(int(rec.Env.Seed%100000)*8 + ri + 1)
+		for _, ct := range []struct {
+			c  string
+			at int
+		}{{"jpeg", 0}, {"png", 0}, {"cr3", 0}, {"cr3", 1}, {"heif", 0}, {"heif", 1}, {"heif", 2}} {
+			if ct.c == "jpeg" && len(f.Enc.II) > 65000 {
+				continue
+			}
+			for pad := 20; pad <= maxPad; pad++ {
+				idx++
+				if idx%rec.Env.Shards != rec.Env.Shard {
+					continue
+				}
+				s := Sweep{Rec: f.Rec, Ctx: exifcheck.CtxOf(f), Payload: f.Enc.II, Container: ct.c, At: ct.at, Pad: pad}
+				if pad%2 == 1 {
+					s.Payload = f.Enc.MM
+				}
+				rec.Case(true, ev.Hash(s.Payload, []byte(fmt.Sprint(ct.c, ct.at, pad))), "sweep-exhaustive:"+ct.c)
+				if fl := evalSweep(s); fl != nil {
+					if pbt.Report(t, rec, chkSweep.Name, s, fl) {
+						return
+					}
+				}
+			}
+		}
+	}
 	pbt.Run(t, rec, chk, rec.Env.Pick(1200, 40000), 1)
+	pbt.Run(t, rec, chkSweep, rec.Env.Pick(1500, 60000), 2)
 }
 
 func TestReplay(t *testing.T) { pbt.Replay(t, rec) }
